@@ -130,7 +130,38 @@ func runC33(c *Ctx) {
 				}
 				_ = nUse
 			default:
-				if k, isK := constInt(pv); !isK || k != rejV {
+				// the policy chosen by a helper (headerPolicy(conn.RemoteAddr())): every return is REJECT, or
+				// USE behind the trusted test of the wrapped connection's peer (parameters bound)
+				if hc, isC := strip(pv).(*ssa.Call); isC && moduleHelperWithBody(&hc.Call) != nil {
+					g := moduleHelperWithBody(&hc.Call)
+					c.Analysed(g)
+					res := make([]ssa.Value, len(hc.Call.Args))
+					for i, a := range hc.Call.Args {
+						res[i] = strip(a)
+					}
+					nRet := 0
+					withBinding(g, res, func() {
+						for _, hr := range successReturns(g) {
+							if len(hr.Results) != 1 {
+								continue
+							}
+							nRet++
+							k, isK := constInt(hr.Results[0])
+							switch {
+							case isK && k == rejV:
+							case isK && k == useV:
+								if gd, ns := MustCross(hr, trustedTrue); !gd || ns == 0 {
+									ok, detail = false, "policy USE is returned by "+g.Name()+" on a path that did not pass trusted.Contains(conn.RemoteAddr()) == true for the wrapped connection"
+								}
+							default:
+								ok, detail = false, fmt.Sprintf("policy may be %s — only REJECT (default) and USE (trusted peer) are allowed", hr.Results[0])
+							}
+						}
+					})
+					if nRet == 0 {
+						ok, detail = false, "policy helper has no return"
+					}
+				} else if k, isK := constInt(pv); !isK || k != rejV {
 					ok, detail = false, "policy is not REJECT-by-default/USE-if-trusted: "+pv.String()
 				}
 			}
@@ -208,7 +239,22 @@ func runC33(c *Ctx) {
 	}
 	if pn := c.MustFunc(pkgNetutil + ":parseNetwork"); pn != nil {
 		k := 0
-		for _, r := range returnsOf(pn) {
+		var pnReturns []*ssa.Return
+		for _, part := range deepFuncs(pn, 1) {
+			c.Analysed(part)
+			for _, r := range returnsOf(part) {
+				// a return that hands on a helper's (prefix, error) pair is judged at the helper's returns
+				if len(r.Results) == 2 {
+					if ex, isEx := r.Results[0].(*ssa.Extract); isEx {
+						if hc, isC := ex.Tuple.(*ssa.Call); isC && moduleHelperWithBody(&hc.Call) != nil {
+							continue
+						}
+					}
+				}
+				pnReturns = append(pnReturns, r)
+			}
+		}
+		for _, r := range pnReturns {
 			if len(r.Results) != 2 || !isNilConst(r.Results[1]) {
 				continue
 			}
